@@ -486,9 +486,48 @@ class Printer:
         return p['kind'] + ' ' + p['name'] + ' (' + ', '.join(ps) + ')'
 
 
+DEFKW = {'%': 'defint', '&': 'deflng', '!': 'defsng', '#': 'defdbl', '$': 'defstr'}
+_NAME = None
+
+
+def strip_names(text, prog):
+    """Spell generated identifiers the way a DEFtype program would: a name whose
+    suffix equals the DEFtype of its first letter (or '!' when no DEFtype covers
+    the letter) is written without the suffix.  Only identifiers of the
+    generator's own shape (letters + digits + suffix) outside string literals
+    are touched, and one program always uses one spelling per name."""
+    dt = prog.get('deftypes')
+    if not dt and not prog.get('strip_single'):
+        return text
+    import re
+    global _NAME
+    if _NAME is None:
+        _NAME = re.compile(r'\b(v|z|t|p|s|n)(\d+)([%&!#$])(?!\()')
+    dt = dt or {}
+
+    def sub(m):
+        stem, num, suf = m.groups()
+        want = dt.get(stem[0])
+        if want == suf or (want is None and suf == '!' and prog.get('strip_single')):
+            return stem + num
+        return m.group(0)
+    parts = text.split('"')
+    for i in range(0, len(parts), 2):
+        parts[i] = _NAME.sub(sub, parts[i])
+    return '"'.join(parts)
+
+
 def to_text(prog, final_newline=True):
     pr = Printer(prog, final_newline=final_newline)
     text = pr.run()
+    dt = prog.get('deftypes')
+    if dt or prog.get('strip_single'):
+        text = strip_names(text, prog)
+        pr.text_of = {k: strip_names(v, prog) for k, v in pr.text_of.items()}
+        if dt:
+            head = [DEFKW[t] + ' ' + l for l, t in sorted(dt.items())]
+            text = '\n'.join(head) + '\n' + text
+            pr.pos = {k: (ln + len(head), col) for k, (ln, col) in pr.pos.items()}
     return text, pr
 
 
